@@ -326,7 +326,7 @@ class Interp:
                 st.ev(kind='RMW', loc=loc, ord=order, rval=r, wval=w, op=op); return cont(st, r)
             if op == 'store':
                 st.ev(kind='W', loc=loc, ord=order, wval=args[1]); return cont(st, Opaque('unit'))
-        if n.endswith('atomic::fence'):
+        if n == 'fence' or n.endswith('::fence'):
             st.ev(kind='F', ord=args[0][1]); return cont(st, Opaque('unit'))
         if n.endswith('Atomic::new'): return cont(st, Struct('Atomic', [args[0]]))
         if re.search(r'(NonNull::(new_unchecked|as_ptr|cast)|ManuallyDrop::(new|into_inner)|Box::from_raw)$', n): return cont(st, args[0])
@@ -492,8 +492,8 @@ def extract(mir_text, maxdepth=10):
     for fn in fns:
         for bb, stmts in fn.blocks.items():
             for ln in stmts:
-                if re.search(r'Atomic::<usize>::(\w+)|atomic::fence|atomic::compiler_fence', ln):
-                    m = re.search(r'Atomic::<usize>::(\w+)|atomic::(fence|compiler_fence)', ln)
+                m = re.search(r'Atomic::<usize>::(\w+)|= (?:\w+::)*(fence|compiler_fence)\(', ln)
+                if m:
                     sites.append((fn.name, m.group(1) or m.group(2)))
     return out, sites
 
